@@ -626,9 +626,18 @@ package server
 //@   requires m != nil && op != nil && op.ShrinkISROp != nil
 //@   ghost at entry: ghost.fencedUnderLock := false
 //@   ensures [the-leader-stays-in-the-in-sync-set] result == nil ==> op.ShrinkISROp.ReplicaToRemove != op.ShrinkISROp.Leader
+// (K61: applying a shrink that names a server which is no replica of the partition fails - partition.RemoveFromISR: not
+//  a replica - and Server.Apply panics on an apply error, on every server and again on every replay; like an expansion
+//  by a non-replica (K40) it must be refused when it is proposed)
+//@   ghost at entry: ghost.removedIsReplica := false
+//@   ghost at entry: ghost.lockedPartition := nil
+//@   ghost after call GetPartition: ghost.lockedPartition := (arg1 == op.ShrinkISROp.Stream && arg2 == op.ShrinkISROp.Partition ? ret0 : nil)
+//@   ghost after call inReplicas: ghost.removedIsReplica := arg0 == ghost.lockedPartition && arg0 != nil && arg1 == op.ShrinkISROp.ReplicaToRemove && ret0
+//@   ensures [only-a-replica-leaves-the-in-sync-set] result == nil ==> ghost.removedIsReplica
 //@   ghost after call checkLeaderGeneration: ghost.fencedUnderLock := ret0 == nil && arg1 == op.ShrinkISROp.Stream && arg2 == op.ShrinkISROp.Partition && arg3 == op.ShrinkISROp.Leader && arg4 == op.ShrinkISROp.LeaderEpoch
 //@   ensures [stale-request-refused-under-the-proposal-lock] result == nil ==> ghost.fencedUnderLock
 //@ ghost var addedIsReplica bool
+//@ ghost var removedIsReplica bool
 //@ func (*metadataAPI).checkExpandISRPreconditions serves C07
 //@   requires m != nil && op != nil && op.ExpandISROp != nil
 //@   ghost at entry: ghost.fencedUnderLock := false
